@@ -16,7 +16,8 @@ PART = "text"
 
 IDENTS = {"ub": "IdUb", "ts": "IdTs", "ss": "IdSs", "opts": "IdOpts", "temp": "IdTemp", "spat": "IdSpat", "r": "IdR",
           "w": "IdW", "n": "IdN", "i": "IdI", "a": "IdA", "c": "IdC", "bm": "IdBm", "b": "IdB", "true": "IdTrue",
-          "false": "IdFalse"}
+          "false": "IdFalse", "maxpool_ext": "IdMaxpool", "memset_ext": "IdMemset", "t": "IdT", "add_ext": "IdAddExt",
+          "add_ext_long": "IdAddExtLong", "rescale_down_ext": "IdRescaleDown", "rescale_up_ext": "IdRescaleUp"}
 PUNCT = {"LESS": "KLt", "GREATER": "KGt", "L_SQUARE": "KLSq", "R_SQUARE": "KRSq", "EQUAL": "KEq", "COMMA": "KComma",
          "MINUS": "KMinus"}
 
@@ -62,7 +63,7 @@ def parse_attr(text):
 
 
 POOL = [",", "-", "=", "[", "]", "<", ">", "r", "w", "n", "i", "a", "c", "bm", "b", "opts", "temp", "spat", "ub", "ts", "ss",
-        "true", "false", "x", "8", "0", "3", "0x10", "(", ":"]
+        "true", "false", "x", "8", "0", "3", "0x10", "(", ":", "t", "add_ext", "memset_ext"]
 
 
 def damage(rng, toks):
@@ -88,7 +89,9 @@ def damage(rng, toks):
 def coq_cfg(d):
     ty = {"r": "SReader", "w": "SWriter"}
     fl = {"n": "FNormal", "i": "FIrrelevant", "r": "FReuse"}
-    op = {"a": "OAddrRemap", "c": "OChanMask", "bm": "OByteMask", "b": "OBroadcast"}
+    op = {"a": "OAddrRemap", "c": "OChanMask", "bm": "OByteMask", "b": "OBroadcast", "maxpool_ext": "OMaxpool",
+          "memset_ext": "OMemset", "t": "OTranspose", "add_ext": "OAddExt", "add_ext_long": "OAddExtLong",
+          "rescale_down_ext": "ORescaleDown", "rescale_up_ext": "ORescaleUp"}
     ss = coqlist(f"(Streamer {ty[s['type']]} {coqlist(fl[f] for f in s['temp'])} {zlist(s['spat'])} {coqlist(op[o] for o in s['opts'])})"
                  for s in d["streamers"])
     return f"(SConfig {ss} {'SysXdma' if d['system'] == 'xdma' else 'SysRegular'})"
